@@ -16,6 +16,9 @@
 //!   mis=<per prime i: cached hash of the target asked with prime i+1 on the node caches left by prime i>
 //!   sem=<cached hash in U64_LARGEST of every pool entry of the SemanticSddBuilder> (or - when the
 //!        program uses xor/iff/ite, which are todo!() there)
+//!   semn=<nodes stored in bdd_tbl + sdd_tbl>/<get_or_insert_bdd + get_or_insert_sdd calls> of that
+//!        builder after the program (both compared with the Coq model of the builder,
+//!        Model/SddSemBuilder.v, run on the same program under the same vtree and weights)
 //!   SDD half (compared with the Coq SDD builder model of C03 run on the same program under the same
 //!   vtrees and hashed by Model/SddSemHash.v; groups separated by | = the vtree of VT, then of SV;
 //!   one CompressionSddBuilder per vtree and prime):
@@ -745,12 +748,16 @@ pub fn run(case: &str, st: &mut Stats) -> Outcome {
 
     // ---- exploration half: hash-identified builders over U64_LARGEST
     let mut sem = String::from("-");
+    let mut semn = String::from("-");
     if semantic_safe(&prog) {
         st.bump("semantic_sdd_runs");
         let b = SemanticSddBuilder::<P2>::new(vt_rsdd(&vt));
         let pool = exec_sdd(&b, &prog, prog.ops.len());
+        // number of stored nodes / number of get_or_insert requests, compared with the Coq model of the
+        // builder; taken before the observers below for even targets and after them for odd ones
+        let stats_of = |b: &SemanticSddBuilder<P2>| { let s = b.stats(); format!("{}/{}", s.app_cache_size, s.num_get_or_insert_bdd + s.num_get_or_insert_sdd) };
         if target % 2 == 0 {
-            let _ = b.stats();
+            semn = stats_of(&b);
         }
         let mut memo = HashMap::new();
         let tts: Vec<TT> = pool.iter().map(|p| tt_sdd(*p, &mut memo) & full(nv)).collect();
@@ -780,6 +787,9 @@ pub fn run(case: &str, st: &mut Stats) -> Outcome {
                 }
                 if same && a != c { st.bump("semantic_eq_pairs_equal"); } else if !same { st.bump("semantic_eq_pairs_different"); }
             }
+        }
+        if target % 2 != 0 {
+            semn = stats_of(&b);
         }
         if is_cnf {
             let c = b.compile_cnf(&cnf_of(&prog));
@@ -831,7 +841,7 @@ pub fn run(case: &str, st: &mut Stats) -> Outcome {
             st.bump("semantic_topdown_compilations");
         }
     }
-    line.push_str(&format!(" sem={sem}"));
+    line.push_str(&format!(" sem={sem} semn={semn}"));
 
     // ---- SDD half of the correspondence: the case's explicit vtrees, one builder per prime
     {
